@@ -343,3 +343,40 @@ def _reductions(model):
                                   lambda g, ai=ai: (g[0], g[1], g[2], g[3], g[4], g[5][:ai] + g[5][ai + 1:])), ctcs)
             if emit(m):
                 yield m
+
+
+def tree_reductions(t, variables=('x', 'y', 'z')):
+    """Trees obtained by replacing one internal node by one of its operands or by a variable."""
+    if not isinstance(t, tuple):
+        return
+    op, left, right = t
+    for sub in (left, right):
+        if sub is not None:
+            yield sub
+    for v in variables:
+        yield v
+    for r in tree_reductions(left, variables):
+        yield (op, r, right)
+    if right is not None:
+        for r in tree_reductions(right, variables):
+            yield (op, left, r)
+
+
+def tree_normalize_vars(t, order=('x', 'y', 'z', 'u', 'v', 'w')):
+    """Rename variables by first occurrence (left to right) to x, y, z, ..."""
+    mapping = {}
+    for n in tree_names(t):
+        head = n.split('.')[0]
+        if head not in mapping:
+            mapping[head] = order[len(mapping)]
+
+    def ren(u):
+        if u is None:
+            return None
+        if isinstance(u, tuple):
+            return (u[0], ren(u[1]), ren(u[2]))
+        if isinstance(u, str) and not u.startswith("'"):
+            head, dot, rest = u.partition('.')
+            return mapping[head] + dot + rest
+        return u
+    return ren(t)
